@@ -78,6 +78,9 @@ pub struct SimRng {
     pub drawn: Vec<u64>,
 }
 
+/// draws allowed within one library call before the call counts as not terminating
+pub const RNG_DRAW_LIMIT_WORDS: u64 = 1 << 17;
+
 impl SimRng {
     pub fn new(mode: RngMode, sub: u64) -> Self {
         SimRng { mode, honest: Prng::new(sub), n: 0, drawn: Vec::new() }
@@ -85,6 +88,14 @@ impl SimRng {
     fn word(&mut self) -> u64 {
         let i = self.n;
         self.n += 1;
+        // bounded liveness at the RNG seam: a consumer that has drawn 1 MiB within one call (the
+        // library needs 64 bytes) is not going to stop - e.g. a rejection loop fed a constant
+        // stream. Reported through the same channel as an exhausted tick budget, so that it is a
+        // deterministic, minimisable step outcome instead of a wall-clock stall (and so that the
+        // record of drawn words stays bounded).
+        if i >= RNG_DRAW_LIMIT_WORDS {
+            panic!("{}", sm9_core::verif::TICK_PANIC);
+        }
         let w = match &self.mode {
             RngMode::Honest => self.honest.next_u64(),
             RngMode::Zeros => 0,
